@@ -71,6 +71,8 @@ def run(tier, seed):
                 sel = sel[::4]
             if mode == "direct" and cwd == "root":
                 sel = sel + deep + failing_rewinds()
+            if mode == "direct" and cwd == "elsewhere":
+                sel = sel + failing_rewinds()
             cases = [{"id": f"{cwd}-{mode}-{i}", "fs0": c["fs0"], "steps": [{"o": s["o"]} for s in c["steps"]], "cwd": cwd, "mode": mode, "_steps": c["steps"]}
                      for i, c in enumerate(sel)]
             results = run_harness("ckpt", [{k: c[k] for k in c if not k.startswith("_")} for c in cases], wd, f"ck-{cwd}-{mode}", shards=14, timeout=3000)
@@ -88,6 +90,10 @@ def run(tier, seed):
                         what = "rewind did not restore the checkpointed state" if o["k"] == "rewind" and pred["ok"] else \
                                ("failed rewind changed the workspace" if o["k"] == "rewind" else "workspace differs from the reference")
                         v.violation(f"{what} at step {k} ({o}) [cwd={cwd}, {mode}]: expected {pred['fs']}, got {ob['fs']}; ops {[s['o'] for s in c['_steps']]}",
+                                    dict(rep, step=k, observed=ob))
+                        break
+                    if ob.get("outside_changed"):
+                        v.violation(f"step {k} ({o}) [cwd={cwd}, {mode}] changed files outside the workspace root: {ob['outside_changed']}; ops {[s['o'] for s in c['_steps']]}",
                                     dict(rep, step=k, observed=ob))
                         break
                     if ob.get("by_changed"):
